@@ -485,6 +485,12 @@ pub fn off_in(parent: &str, child: &str) -> Option<usize> {
     }
 }
 
+/// One character for every class of UTF-8 lead byte (C2, DF, E0, E1, EC, ED, EE, EF, F0, F1, F3, F4)
+/// plus ASCII: alphabets built from Σ4 only ever see the lead bytes C3/E5/F0.
+pub const LEADS: [&str; 13] = ["a", "\u{80}", "\u{7ff}", "\u{800}", "\u{1000}", "\u{c000}", "\u{d7ff}", "\u{e000}", "\u{ffff}", "\u{10000}", "\u{40000}", "\u{fffff}", "\u{10ffff}"];
+/// 耀 (E8), U+FFFD (EF BF BD), Hangul (EA/ED), fullwidth (EF BC ..): 3-byte chars above U+8000
+pub const LEADS_HI3: [&str; 5] = ["\u{8000}", "\u{fffd}", "\u{d55c}", "\u{ff21}", "\u{f000}"];
+
 // ---------------------------------------------------------------- enumerators
 
 /// All strings of 0..=max_pieces pieces over `alphabet` (pieces are strings, usually one char).
